@@ -61,6 +61,11 @@ CHECKS = {
             "Both registration orders (boot: DHCP routes before the user list exists; install wizard), every pattern (79/83) x path spellings x 7 methods x content types x bodies (incl. chunked without length) x 6 credential kinds; without valid credentials the response is 403/redirect, the probe/handler did not run and config, sessions, users and work-dir files are byte-identical; with credentials wrong method => 405 and non-JSON body => 415; expired sessions are not revived. Static part: every Handle/HandleFunc/httpRegister call in the shipped packages is in the mux, wrapped, and public only if in the fixed public set.",
             "handler-ran for in-home routes is inferred from the status code; initDNS/initContextClients are mirrored step by step by the hook (their callback arguments are covered statically).",
             "DESIGN.md §4 C11", "E1-stateless"),
+    "C12": ("model_checking",
+            "explicit-state BFS over timed login/request/logout/clock-advance/restart histories on the real auth handlers under a virtual clock against a throttle automaton and two-sided session bounds, plus preemption-bounded schedule exploration of request || logout || clock tick followed by a restart",
+            "Three BFS passes: throttle only (10 operations, all 6 (maxAttempts, blockDur) configurations, depth 8 quick / 11 thorough), sessions (11 operations, TTL 1 h and 3 d, depth 6 / 9), cross (17 operations, depth 4 / 5); clock steps straddle every boundary by +-1 s; two addresses that are trusted proxies and send spoofed proxy headers; while blocked every login is 429 with Retry-After and creates no session; tokens authenticate before created+TTL and never after logout, expiry or having been seen expired, also across restart (session file). Schedules: request, logout and a midnight-crossing clock tick in all interleavings (<=1-2 preemptions, release points), then restart: a logged-out token never authenticates.",
+            "the throttle table is emptied by a restart (the statement does not cover throttling across restarts); Retry-After only checked for presence and range; exact-boundary instants are not judged.",
+            "DESIGN.md §4 C12", "E1-BFS+E2"),
     "C13": ("exploration",
             "deviation-bounded exhaustive enumeration of documents (base x key path x shape, 0/1/2 deviations) x every split point, against outcome/idempotence/path-independence/loader oracles",
             "Golden inputs of every schema version plus minimal and raw documents; every key path present plus every string literal of later steps placed under root and top-level objects, replaced by 9 shapes (1 deviation in quick, pairs in thorough); list-duplication variants; each migrated in one run and through every split point; no panic, error=>unchanged, stamped, idempotent, split-independent, unrelated key kept, loader accepts valid inputs.",
